@@ -17,6 +17,9 @@ package main
 //                   afterwards (a later branch or iteration) with no synchronisation in between: the
 //                   goroutine sees whichever value is there when it gets to run.
 //   STATE/non-blocking-send  a value is sent in a select that has a default branch.
+//   STATE/loopvar-capture  a function literal that outlives its iteration captures a loop variable that
+//                   is one variable for the whole loop (the module's language version predates per-iteration
+//                   loop variables): every literal sees the last element.
 //   STATE/format    text taken from the arguments is used as the FORMAT of a fmt call.
 //   STATE/pool      memory of an object taken from a sync.Pool is still referenced by the function's
 //                   result although the object is handed back to the pool.
@@ -27,8 +30,8 @@ package main
 import (
 	"fmt"
 	"go/token"
-	"os"
 	"go/types"
+	"os"
 	"sort"
 	"strings"
 
@@ -291,6 +294,25 @@ func stateRules(c *Ctx) {
 			if guard == "" && (once[g] || underOnce[g]) {
 				guard = "sync.Once"
 			}
+			if guard == "sync.Once" {
+				// initialised once – from what? data of the call that happened to come first is wrong for every later call
+				fromArgs := false
+				for _, v := range w.val {
+					tb.T(v).walk(func(x *Term) {
+						if x.Op == "param" {
+							fromArgs = true
+						}
+						if x.Op == "freevar" && capturesParam(g, x) {
+							fromArgs = true
+						}
+					})
+				}
+				if fromArgs {
+					perGlobal[w.glob] = true
+					c.bad("STATE", key, w.at.Pos(), fmt.Sprintf("%s fills package-level %s once (sync.Once) with data computed from the arguments of whichever call comes first: every later call, with other arguments, works on the first call's data", short1, w.glob.Name()))
+					continue
+				}
+			}
 			if guard != "" {
 				perGlobal[w.glob] = true
 				c.undecided("STATE", key, w.at.Pos(), fmt.Sprintf("%s writes package-level %s under %s; what the lock covers is not followed", short1, w.glob.Name(), guard))
@@ -324,6 +346,57 @@ func stateRules(c *Ctx) {
 				c.undecided("STATE", key, w.at.Pos(), fmt.Sprintf("%s writes package-level %s at run time; whether the data depends on the arguments is not visible", short1, w.glob.Name()))
 			} else {
 				c.undecided("STATE", key, w.at.Pos(), fmt.Sprintf("%s writes package-level %s at run time with data that does not depend on its arguments (lazy initialisation); not synchronised", short1, w.glob.Name()))
+			}
+		}
+		// ---- looked up under one key, stored under another
+		{
+			type kv struct {
+				at  ssa.Instruction
+				key string
+			}
+			loads, stores := map[string][]kv{}, map[string][]kv{}
+			eachInstr(g, func(i ssa.Instruction) {
+				switch x := i.(type) {
+				case *ssa.Call:
+					n := calleeName(x)
+					if (n == "(*sync.Map).Load" || n == "(*sync.Map).Store") && len(x.Call.Args) >= 2 {
+						if gl := globalRoot(x.Call.Args[0]); gl != nil {
+							kl, opq := argLeaves(tb.T(unwrapIface(x.Call.Args[1])))
+							if opq || len(kl) == 0 {
+								return
+							}
+							e := kv{x, strings.Join(kl, ",")}
+							if n == "(*sync.Map).Load" {
+								loads[gl.Name()] = append(loads[gl.Name()], e)
+							} else {
+								stores[gl.Name()] = append(stores[gl.Name()], e)
+							}
+						}
+					}
+				case *ssa.Lookup:
+					if gl := globalRoot(x.X); gl != nil {
+						if _, isMap := x.X.Type().Underlying().(*types.Map); isMap {
+							if kl, opq := argLeaves(tb.T(x.Index)); !opq && len(kl) > 0 {
+								loads[gl.Name()] = append(loads[gl.Name()], kv{x, strings.Join(kl, ",")})
+							}
+						}
+					}
+				case *ssa.MapUpdate:
+					if gl := globalRoot(x.Map); gl != nil {
+						if kl, opq := argLeaves(tb.T(x.Key)); !opq && len(kl) > 0 {
+							stores[gl.Name()] = append(stores[gl.Name()], kv{x, strings.Join(kl, ",")})
+						}
+					}
+				}
+			})
+			for name, ls := range loads {
+				for _, st := range stores[name] {
+					for _, ld := range ls {
+						if ld.key != st.key {
+							c.bad("STATE", "memo-key:"+short1+"->"+name+":lookup", ld.at.Pos(), fmt.Sprintf("%s looks package-level %s up under a key computed from %s but stores under a key computed from %s: a value remembered for one argument is handed out for another", short1, name, strings.Join(pretty(g, strings.Split(ld.key, ",")), ", "), strings.Join(pretty(g, strings.Split(st.key, ",")), ", ")))
+						}
+					}
+				}
 			}
 		}
 		// ---- memo keys
@@ -495,6 +568,10 @@ func stateRules(c *Ctx) {
 		nPool += poolAlias(c, g, short1)
 		// ---- variables shared with a started goroutine
 		nGo += goCapture(c, g, short1)
+		// ---- function literals that keep a loop variable declared once for the whole loop
+		loopVarCapture(c, g, short1)
+		// ---- a pooled object handed to a goroutine and put back by the starter
+		poolToGoroutine(c, g, short1)
 	}
 	// parsers that link features to a local Sequence (shared by C01, C14, C15)
 	switch c.Prop {
@@ -1060,4 +1137,152 @@ func keptUnsorted(g *ssa.Function, v ssa.Value) string {
 		return ""
 	}
 	return "only ever grows by append at its end (arrival order) and is never sorted"
+}
+
+// capturesParam: the free variable term x of function literal g is bound to a parameter of the enclosing
+// function (directly, or to the cell the parameter was spilled into).
+func capturesParam(g *ssa.Function, x *Term) bool {
+	fv, ok := x.V.(*ssa.FreeVar)
+	if !ok || g.Parent() == nil {
+		return false
+	}
+	idx := -1
+	for k, f := range g.FreeVars {
+		if f == fv {
+			idx = k
+		}
+	}
+	if idx < 0 {
+		return false
+	}
+	found := false
+	eachInstr(g.Parent(), func(i ssa.Instruction) {
+		mc, ok := i.(*ssa.MakeClosure)
+		if !ok || mc.Fn != ssa.Value(g) || idx >= len(mc.Bindings) {
+			return
+		}
+		switch b := mc.Bindings[idx].(type) {
+		case *ssa.Parameter:
+			found = true
+		case *ssa.Alloc:
+			if b.Referrers() != nil {
+				for _, r := range *b.Referrers() {
+					if st, isSt := r.(*ssa.Store); isSt && st.Addr == ssa.Value(b) {
+						if _, isP := st.Val.(*ssa.Parameter); isP {
+							found = true
+						}
+					}
+				}
+			}
+		}
+	})
+	return found
+}
+
+// loopVarCapture: inside a loop, a function literal captures a variable that is declared outside the
+// loop's blocks (one cell for all iterations) and is assigned the loop's current element in every
+// iteration, and the literal is kept beyond the iteration (appended, stored, started as a goroutine).
+func loopVarCapture(c *Ctx, g *ssa.Function, short1 string) {
+	eachInstr(g, func(i ssa.Instruction) {
+		mc, ok := i.(*ssa.MakeClosure)
+		if !ok {
+			return
+		}
+		h := enclosingLoopHeader(mc.Block())
+		if h == nil {
+			return
+		}
+		loop := naturalLoopOf(h)
+		// kept beyond the iteration?
+		kept := false
+		seenV := map[ssa.Value]bool{}
+		var follow func(v ssa.Value)
+		follow = func(v ssa.Value) {
+			if seenV[v] || v.Referrers() == nil {
+				return
+			}
+			seenV[v] = true
+			for _, r := range *v.Referrers() {
+				switch x := r.(type) {
+				case *ssa.Call:
+					if x.Call.Value == v {
+						continue // called, here or later in the same iteration: not kept
+					}
+					kept = true // handed to append or another function
+				case *ssa.Phi:
+					if loop[x.Block()] {
+						follow(x) // one of several literals chosen within the iteration
+					} else {
+						kept = true
+					}
+				case *ssa.Go, *ssa.Defer, *ssa.Store, *ssa.MakeInterface, *ssa.MapUpdate, *ssa.Send:
+					kept = true
+				}
+			}
+		}
+		follow(mc)
+		if !kept {
+			return
+		}
+		for _, b := range mc.Bindings {
+			a, ok := b.(*ssa.Alloc)
+			if !ok || loop[a.Block()] || a.Referrers() == nil {
+				continue
+			}
+			for _, r := range *a.Referrers() {
+				st, isSt := r.(*ssa.Store)
+				if !isSt || st.Addr != ssa.Value(a) || !loop[st.Block()] {
+					continue
+				}
+				elem := false
+				switch v := st.Val.(type) {
+				case *ssa.Extract:
+					_, elem = v.Tuple.(*ssa.Next)
+				case *ssa.UnOp:
+					if ia, isIA := v.X.(*ssa.IndexAddr); isIA && v.Op.String() == "*" {
+						elem = isRangeIndex(ia.Index)
+					}
+				}
+				if elem {
+					c.bad("STATE", "loopvar-capture:"+short1+"."+a.Comment, mc.Pos(), fmt.Sprintf("%s keeps, for use after the iteration, a function literal that reads the loop variable %s; that variable is a single one for the whole loop (the module's go directive predates per-iteration loop variables), so every literal kept sees the last element only", short1, a.Comment))
+					return
+				}
+			}
+		}
+	})
+}
+
+// poolToGoroutine: an object taken from a sync.Pool is handed to a goroutine started here, and is put
+// back into the pool by this function (deferred or before returning): the goroutine goes on using an
+// object that the next Get hands to someone else.
+func poolToGoroutine(c *Ctx, g *ssa.Function, short1 string) {
+	putVals := map[ssa.Value]ssa.Instruction{}
+	goVals := map[ssa.Value]bool{}
+	eachInstr(g, func(j ssa.Instruction) {
+		switch x := j.(type) {
+		case *ssa.Go:
+			for _, a := range x.Call.Args {
+				goVals[unwrap(a)] = true
+			}
+			if mc, isMC := x.Call.Value.(*ssa.MakeClosure); isMC {
+				for _, b := range mc.Bindings {
+					goVals[unwrap(b)] = true
+				}
+			}
+		case ssa.CallInstruction:
+			if calleeName(x) == "(*sync.Pool).Put" {
+				as := x.Common().Args
+				putVals[unwrap(as[len(as)-1])] = j
+			}
+		}
+	})
+	for v, at := range putVals {
+		if _, isConst := v.(*ssa.Const); isConst {
+			continue
+		}
+		if goVals[v] {
+			c.bad("STATE", "pool-to-goroutine:"+short1, at.Pos(), fmt.Sprintf("%s hands an object to a goroutine it starts and puts the same object into a sync.Pool itself: the goroutine keeps using an object that the next Get gives to another caller", short1))
+			return
+		}
+	}
 }
